@@ -91,7 +91,8 @@ def run_configs(ctx, configs, nontrivial_keys, rule, assumptions,
         res = statex.bfs(spec, depth, max_dev=max_dev, workers=ctx.workers,
                          time_cap=per_cfg_budget, progress=ctx.log,
                          init_histories=cfg.get('seeds', ((),)),
-                         bisim_depth=cfg.get('bisim_depth', 0))
+                         bisim_depth=cfg.get(
+                             'bisim_depth', 0 if ctx.quick else 2))
         cov['states'] += res.states
         cov['transitions'] += res.transitions
         cov['configs'][name] = {
